@@ -1,28 +1,31 @@
 #!/bin/bash
 # usage: lib/confirm_seed.sh <seedid> — confirms a sub-agent's seeded change in its scratch worktree:
 # suite passes with the change; demonstration fails with it and passes without it. Then files it under seeded/.
+# (no `git stash`: the stash is shared between worktrees)
 set -u
 id=$1; wt=/tmp/seed/wt_$id; [ -d $wt ] || wt=/tmp/seed/$id; out=/tmp/seed/out/$id
 export GOFLAGS=-mod=mod GOPROXY=off GOSUMDB=off GOTOOLCHAIN=local
 cd $wt || exit 2
-git checkout -q -- . ; git clean -fdq -e nothing >/dev/null 2>&1
+git checkout -q -- . ; git clean -fdq >/dev/null 2>&1
 git apply $out/patch.diff || { echo "PATCH-DOES-NOT-APPLY"; exit 1; }
 go build ./... || { echo "BUILD-FAILS"; exit 1; }
 suite=$(go test -vet=off -count=1 ./... 2>&1 | grep -v "no test files")
 echo "$suite" | grep -q FAIL && { echo "SUITE-FAILS-WITH-CHANGE"; echo "$suite" | tail -5; exit 1; }
 demo=$(ls $out/*_test.go 2>/dev/null | head -1)
+ddir=$(python3 -c "import json,sys; print(json.load(open('$out/meta.json')).get('demo_dir','.') or '.')" 2>/dev/null || echo .)
+[ -d "$wt/$ddir" ] || ddir=.
 if [ -n "$demo" ]; then
-  cp $demo $wt/zz_seed_demo_test.go
-  with=$(go test -vet=off -count=1 -run 'Test' . 2>&1 | tail -3)
-  git stash -q -- $(git diff --name-only)
-  without=$(go test -vet=off -count=1 -run 'Test' . 2>&1 | tail -3)
-  git stash pop -q
-  rm -f $wt/zz_seed_demo_test.go
+  cp $demo $wt/$ddir/zz_seed_demo_test.go
+  with=$(cd $wt/$ddir && go test -vet=off -count=1 -run 'Test' . 2>&1 | tail -3)
+  git apply -R $out/patch.diff
+  without=$(cd $wt/$ddir && go test -vet=off -count=1 -run 'Test' . 2>&1 | tail -3)
+  rm -f $wt/$ddir/zz_seed_demo_test.go
+  git checkout -q -- . ; git clean -fdq >/dev/null 2>&1
 else
   echo "NO-TEST-DEMO (standalone program?)"; ls $out; exit 3
 fi
-echo "with change   : $(echo $with | tr '\n' ' ' | cut -c1-160)"
-echo "without change: $(echo $without | tr '\n' ' ' | cut -c1-160)"
+echo "with change   : $(echo $with | tr '\n' ' ' | cut -c1-200)"
+echo "without change: $(echo $without | tr '\n' ' ' | cut -c1-200)"
 echo "$with" | grep -q "FAIL" || { echo "DEMO-DOES-NOT-FAIL-WITH-CHANGE"; exit 1; }
 echo "$without" | grep -q "^ok" || { echo "DEMO-DOES-NOT-PASS-WITHOUT-CHANGE"; exit 1; }
 mkdir -p /verif/seeded/$id && cp $out/patch.diff $out/meta.json $demo /verif/seeded/$id/
